@@ -1504,6 +1504,20 @@ class Interp:
                 r = z_or(*[self.compare(st, ast.Eq(), a, x) for x in items])
             return r if name == "In" else z_not(r)
         sym = self._CMP[name]
+        if isinstance(a, (tuple, list)) and isinstance(b, (tuple, list)) and type(a) is type(b) \
+                and any(not isinstance(x, (int, float, str, bool, type(None))) for x in list(a) + list(b)):
+            # lexicographic comparison of sequences with symbolic / modelled elements
+            n = min(len(a), len(b))
+            eqs = [self.compare(st, ast.Eq(), x, y) for x, y in zip(a[:n], b[:n])]
+            if sym in ("==", "!="):
+                r = z_and(*eqs) if len(a) == len(b) else False
+                return r if sym == "==" else z_not(r)
+            strict = ast.Lt() if sym in ("<", "<=") else ast.Gt()
+            tail = {"<": len(a) < len(b), "<=": len(a) <= len(b), ">": len(a) > len(b), ">=": len(a) >= len(b)}[sym]
+            res = tail
+            for k in range(n - 1, -1, -1):
+                res = z_or(self.compare(st, strict, a[k], b[k]), z_and(eqs[k], res))
+            return res
         if isinstance(a, Instance) or isinstance(b, Instance):
             return self.instance_compare(st, name, a, b)
         if hasattr(a, "pysym_compare"):
